@@ -18,6 +18,10 @@ def handle : List String → String
       showOutcome (fun pkt => s!"keyid={showB (pkt.take 8)} msgkey={showB (slice pkt 8 24)} ct={showB (pkt.drop 24)}")
         (sealClient prims key salt sid mid seq (ack = "1") body)
     | _, _, _, _, _, _ => "bad-op"
+  -- the same with the struct's AuthKeyHash field filled in by the caller: the model derives the key id
+  -- from the key alone, whatever the field holds
+  | ["c03.seal", key, salt, sid, mid, seq, ack, body, _akh] =>
+    handle ["c03.seal", key, salt, sid, mid, seq, ack, body]
   -- a packet sealed by the specification's server, opened by DeserializeEncrypted
   | ["c03.open", key, salt, sid, mid, seq, body, pad] =>
     match parseTok? key, salt.toNat?, sid.toNat?, mid.toNat?, seq.toNat?, parseTok? body, parseTok? pad with
